@@ -149,7 +149,11 @@ def sym_operand(ctx, w, t, nm, base, size):
 def cross(ctx, kp, rp, what, cond_fn):
     """for every pair of (kernel path, reference path): under both path conditions cond_fn(p, q) holds"""
     for p in kp:
+        if p.status in ("unsupported", "unwind"):
+            continue     # reported as inconclusive by ctx.only
         for q in rp:
+            if q.status in ("unsupported", "unwind"):
+                continue
             c = cond_fn(p, q)
             if c is None:
                 continue
